@@ -2,7 +2,9 @@ package main
 
 import (
 	"bufio"
+	"errors"
 	"fmt"
+	"io"
 	"net"
 	"strings"
 	"sync"
@@ -426,5 +428,133 @@ func genC11tcp(r *rngT, n int) {
 		emit(fmt.Sprintf("fancheck %d %s %s", k-1, encPlan2(p2), strings.Join(o2, ";")), "ok")
 		stat("op:fancheck")
 		stat("c11-tcp-phase2-after-close")
+	}
+}
+
+// runFanReconn: a one-channel-at-a-time endpoint (serial, through the hook) whose first channel ends (EOF) and is replaced by a
+// second one after the reconnect period. The application still holds the FIRST channel: writing to it is writing to a closed
+// channel (ignored), excluding it excludes nothing. In the op the closed channel appears as the foreign channel `F`, the new one as
+// channel 0.
+func runFanReconn(plan [][]fanOp, id int) (obs string, note string) {
+	dev := fmt.Sprintf("/dev/c11re%d", id)
+	first := newMemConn(nil)
+	first.endErr = io.EOF
+	second := newMemConn(nil)
+	var omu sync.Mutex
+	opens := 0
+	old := gomavlib.VerifSetSerialOpenFunc(func(d string, _ int) (io.ReadWriteCloser, error) {
+		if d != dev {
+			return nil, errors.New("no such device")
+		}
+		omu.Lock()
+		defer omu.Unlock()
+		opens++
+		switch opens {
+		case 1:
+			return newMemConn(nil), nil // the existence test of Initialize
+		case 2:
+			return first, nil
+		case 3:
+			return second, nil
+		}
+		return nil, errors.New("gone")
+	})
+	defer gomavlib.VerifSetSerialOpenFunc(old)
+	oldp := gomavlib.VerifSetReconnectPeriod(50 * time.Millisecond)
+	defer gomavlib.VerifSetReconnectPeriod(oldp)
+	n := &gomavlib.Node{Endpoints: []gomavlib.EndpointConf{gomavlib.EndpointSerial{Device: dev, Baud: 57600}},
+		Dialect: common.Dialect, OutVersion: gomavlib.V2, OutSystemID: 9, HeartbeatDisable: true}
+	if err := n.Initialize(); err != nil {
+		return "", "init-err"
+	}
+	opensCh := make(chan *gomavlib.Channel, 4)
+	consDone := make(chan struct{})
+	go func() {
+		defer close(consDone)
+		for e := range n.Events() {
+			if o, ok := e.(*gomavlib.EventChannelOpen); ok {
+				opensCh <- o.Channel
+			}
+		}
+	}()
+	var chOld, chNew *gomavlib.Channel
+	select {
+	case chOld = <-opensCh:
+	case <-time.After(3 * time.Second):
+		n.Close()
+		return "", "first-channel-not-open"
+	}
+	select {
+	case chNew = <-opensCh:
+	case <-time.After(3 * time.Second):
+		n.Close()
+		return "", "second-channel-not-open"
+	}
+	var wg sync.WaitGroup
+	for g, ops := range plan {
+		wg.Add(1)
+		go func(g int, ops []fanOp) {
+			defer wg.Done()
+			for i, o := range ops {
+				var target *gomavlib.Channel
+				if o.target != 'a' {
+					target = chNew
+					if o.ch < 0 {
+						target = chOld
+					}
+				}
+				execFanOp(n, g, i, o, target)
+			}
+		}(g, ops)
+	}
+	wg.Wait()
+	exp := expectCounts(plan, 1)[0]
+	dl := time.Now().Add(5 * time.Second)
+	for len(second.snapshotWrites()) < exp && time.Now().Before(dl) {
+		time.Sleep(200 * time.Microsecond)
+	}
+	time.Sleep(30 * time.Millisecond)
+	var items []string
+	for _, w := range second.snapshotWrites() {
+		items = append(items, decodeWrite(w))
+	}
+	if len(first.snapshotWrites()) > 0 {
+		note += "closed-transport-received-writes"
+	}
+	closed := make(chan struct{})
+	go func() { n.Close(); close(closed) }()
+	select {
+	case <-closed:
+	case <-time.After(10 * time.Second):
+		note += "close-timeout"
+	}
+	<-consDone
+	return strings.Join(items, ","), note
+}
+
+// genC11reconn: plans over one live channel and one closed channel of the same endpoint.
+func genC11reconn(r *rngT, n int) {
+	for s := 0; s < n; s++ {
+		m := 1 + r.Intn(3)
+		var plan [][]fanOp
+		for g := 0; g < m; g++ {
+			var ops []fanOp
+			for i := 0; i < 2+r.Intn(12); i++ {
+				o := fanOp{kind: "mfd"[r.Intn(3)], target: "atx"[r.Intn(3)]}
+				if o.target != 'a' && r.bool() {
+					o.ch = -1 // the channel that has been closed
+				}
+				ops = append(ops, o)
+			}
+			plan = append(plan, ops)
+		}
+		obs, note := runFanReconn(plan, s)
+		impl := "ok"
+		if note != "" {
+			impl = note
+		}
+		emit(fmt.Sprintf("fancheck 1 %s %s", encPlan2(plan), dash(obs)), impl)
+		stat("op:fancheck")
+		stat("c11-after-reconnect")
 	}
 }
